@@ -2,6 +2,7 @@ import PV.Model.Eval
 import PV.Model.Ops
 import PV.Model.Traverse
 import PV.Driver.GAOps
+import PV.Driver.CseTallyOps
 import PV.Driver.NodeCountOps
 import PV.Driver.AlgoFftOps
 import PV.Driver.CompileOps
@@ -208,6 +209,7 @@ def handlers : List (Sexp → Option Sexp) :=
    , handleCompile
    , handleC19Fft
    , handleNodeCount
+   , handleCseTally
    -- HANDLERS
   ]
 
